@@ -50,8 +50,14 @@ func anyValue() string {
 	case 6, 7:
 		return pick(floatWords)
 	case 8, 9, 10:
+		if rng.Intn(3) == 0 {
+			return composedQuoted()
+		}
 		return pick(quotedWords)
 	case 11, 12:
+		if rng.Intn(3) == 0 {
+			return composedPattern()
+		}
 		return pick(wildWords)
 	case 13:
 		return pick(regexWords)
@@ -215,9 +221,17 @@ func genTree(depth int, fielded bool) *qt {
 	}
 	switch rng.Intn(12) {
 	case 0, 1, 2:
-		return mk("and", genTree(depth-1, fielded), genTree(depth-1, fielded))
+		l := genTree(depth-1, fielded)
+		if rng.Intn(6) == 0 {
+			return mk("and", l, variant(l))
+		}
+		return mk("and", l, genTree(depth-1, fielded))
 	case 3, 4, 5:
-		return mk("or", genTree(depth-1, fielded), genTree(depth-1, fielded))
+		l := genTree(depth-1, fielded)
+		if rng.Intn(6) == 0 {
+			return mk("or", l, variant(l))
+		}
+		return mk("or", l, genTree(depth-1, fielded))
 	case 6:
 		return mk("not", genTree(depth-1, fielded))
 	case 7:
@@ -657,8 +671,40 @@ func swapCase(s string) string {
 }
 
 // C09: whitespace, keyword case and redundant parentheses variants of one query
+// values that hold a character of the query syntax (escaped, quoted, or inside a regular expression) or several blanks: every layout
+// transformation must leave them alone
+var layoutValues = []string{`x\(`, `\)y`, `x\(y\)`, `"(x"`, `"y)"`, `"(x) OR (y"`, `/a(b/`, `/b)/`, `"x  y"`, "\"tab\there\"", `"a [b"`, `x\[`, `"{"`, `x\:y`, `"a:b"`, `"x AND"`, `x\ y`, `"  "`, `/a  b/`, `"x, y"`, `"it's"`, `"x \\"`}
+
+func genLayoutValues(g0 int) int {
+	g := g0
+	for _, v := range layoutValues {
+		leaf := func() *qt { return &qt{kind: "fv", toks: []string{"f", ":", v}} }
+		for _, t := range []*qt{leaf(), mk("and", leaf(), termQ("b")), mk("or", termQ("a"), leaf()), mk("not", leaf()),
+			mk("and", leaf(), &qt{kind: "fv", toks: []string{"g", ":", "w"}}), mk("or", mk("and", leaf(), leaf()), termQ("c"))} {
+			words := t.words(nil)
+			base := join(words, 0)
+			for _, st := range []int{1, 2, 2} {
+				emitQ(base, "", fmt.Sprintf("rel=C09ws;g=%d;role=a", g))
+				emitQ(join(words, st), "", fmt.Sprintf("rel=C09ws;g=%d;role=b", g))
+				g++
+			}
+			for _, p := range []float64{1.0, 0.5} {
+				t2 := addPars(t, p)
+				if p == 1.0 {
+					t2 = par(t2)
+				}
+				emitQ(base, "d", fmt.Sprintf("rel=C09par;g=%d;role=a", g))
+				emitQ(join(t2.words(nil), 0), "d", fmt.Sprintf("rel=C09par;g=%d;role=b", g))
+				g++
+			}
+		}
+	}
+	return g
+}
+
 func genLayout(n int) {
 	g := genShapes(0)
+	g = genLayoutValues(g)
 	for i := 0; i < n; i++ {
 		var words []string
 		var t *qt
